@@ -141,6 +141,8 @@ class IndexRun:
         self.gates = []
         self.db = DB(self.env)
         self.daemon = FakeDaemon(self)
+        # Controller.serve queries the daemon once before anything starts, so a height is always cached
+        self.daemon._h = self.tree.blocks[self.best].height
         self.bp = BlockProcessor(self.env, self.db, self.daemon, Notes(self))
         self.bp.polling_delay = 5
         bp = self.bp
@@ -396,7 +398,8 @@ class IndexRun:
             self.cleanup()
         return {'tree': [[b.parent.bid if b.parent else -1, b.height, b.slots] for _bid, b in sorted(self.tree.blocks.items())],
                 'activation': self.activation, 'limit': self.reorg_limit, 'steps': self.steps,
-                'ops': len(ops), 'oplog': [(k, d) for _n, k, d in ops], 'fired': fired, 'died': self.died}
+                'ops': len(ops), 'oplog': [(k, d) for _n, k, d in ops], 'fired': fired, 'died': self.died,
+                'flush_job_ops': list(getattr(self, 'flush_job_ops', []))}
 
     def restart(self, why):
         self.died.append(why)
